@@ -34,10 +34,15 @@ META = {
                 "Encoder/decoder models mirror ser.rs/de.rs function by function; format codes and size constants are regenerated from "
                 "the source and proved equal to the specification's (Tie_FormatCodes). The models are run against to_vec/from_slice on "
                 "generated values, their corruptions and hostile inputs every run; from_slice(to_vec(v)) == v is checked on the "
-                "implementation for values and for every typed protocol item.",
+                "implementation for values and for every typed protocol item. Typed layer: C03_composite_roundtrip - for every list-encoded "
+                "composite type of the protocol (table regenerated from the struct definitions and proved equal to the specification's, "
+                "Tie_Composites) and every admissible field vector, the model of the derive macros' serializer (pending nulls, trailing-field "
+                "elision, defaults) followed by the model of DescribedAccess / the derived visitor returns the field vector; both models are "
+                "run against to_vec / from_slice::<T> on 28 types every run.",
         "design_ref": "DESIGN.md section 4, C03",
         "note": "Trusted: Coq kernel, extraction, translator; model tied to the code on exercised inputs. Known finding: arrays whose elements "
-                "are null/list/map/array/described do not round-trip (witness theorem in Props/C03.v). Typed items: tested, not proved.",
+                "are null/list/map/array/described do not round-trip (witness theorem in Props/C03.v). Typed layer: list-encoded composites proved at the level of "
+                "field vectors; enums, basic- and map-encoded types and whole messages tested, not proved.",
         "technique": "Coq proof (nested induction over the value type) + regenerated tables + extracted-model-vs-implementation correspondence",
     },
     "C04": {
@@ -247,7 +252,11 @@ META = {
         "text": "Theorems (Coq, closed): for every well-formed value the encoder model's bytes are accepted by the specification-derived reference decoder as exactly that "
                 "value; every encoding the reference decoder accepts is decoded by the decoder model to the same value under two explicit exclusions (zero-width-element arrays "
                 "whose count exceeds the size field; non-empty arrays of compound elements) and distinct map keys - the unrestricted statement is refuted with witnesses. "
-                "Every run: the real encoder's output and three hand-built variant encodings per generated value go through the extracted reference decoder and the real decoder.",
+                "Every run: the real encoder's output and three hand-built variant encodings per generated value go through the extracted reference decoder and the real decoder. "
+                "Composite types: the table of descriptors, field order and optional / mandatory / default / multiple regenerated from the struct definitions equals the "
+                "specification's (C05_tie_composites); every layout of a field vector the specification allows (null or written-out defaults, empty array for an absent multiple "
+                "field, trailing fields kept or dropped, list0/8/32, descriptor by code or name) decodes to that field vector (C05_composite_layouts_accepted), the library's own "
+                "layout being one of them; a list that ends before a mandatory field is refused. Real from_slice::<T> against the model on such layouts every run.",
         "design_ref": "DESIGN.md section 4, C05",
         "note": "Trusted: Coq kernel, extraction, our reading of the specification in Codec/Spec.v, the variant encoder. Fixed defect: empty array with element constructor "
                 "mis-decoded. Known finding: c05-zero-width-array-count.",
